@@ -19,6 +19,8 @@ pub enum Tail {
     Next,
     Fold,
     ForEach,
+    /// stop after the `j` steps and drop the iterator (partial consumption)
+    DropNow,
 }
 
 /// Drive an exact-size iterator: `j` steps of `next()`, then finish by `tail`.
@@ -58,6 +60,9 @@ where
         chk(&it, r, step + 1)?;
     }
     match tail {
+        Tail::DropNow => {
+            drop(it);
+        }
         Tail::Next => {
             let mut guard = 0;
             while let Some(x) = it.next() {
@@ -216,6 +221,38 @@ pub fn probe_iterators<K: KeyT, V: ValT>(rebuild: &dyn Fn() -> MapSut<K, V>, sut
                 s.finish().map_err(|m| format!("after drain(): {m}"))?;
             }
             count += 4;
+        }
+        // partial consumption: j items taken, iterator dropped; the rest must be dropped exactly once
+        if j <= n {
+            let kvo = |(k, v): (K, V)| (k.id(), k.tok(), v.tok());
+            let koo = |k: K| (k.id(), k.tok(), 0);
+            let voo = |v: V| (0, 0, v.tok());
+            let subset = |what: &str, got: Vec<E3>, of: &[E3]| -> Result<(), String> {
+                let got = sorted(got);
+                if got.len() != j.min(n) || got.windows(2).any(|w| w[0] == w[1]) || got.iter().any(|g| !of.contains(g)) {
+                    return Err(format!("{what} (dropped after {j} items): yielded {:?}, stored {:?}", got, of));
+                }
+                Ok(())
+            };
+            {
+                let mut s = rebuild();
+                let m = std::mem::take(&mut s.map);
+                subset("into_iter()", drive(m.into_iter(), n, j, Tail::DropNow, "into_iter()", &kvo)?, &full)?;
+                s.finish().map_err(|m| format!("after into_iter() dropped after {j} items: {m}"))?;
+            }
+            {
+                let mut s = rebuild();
+                let m = std::mem::take(&mut s.map);
+                subset("into_keys()", drive(m.into_keys(), n, j, Tail::DropNow, "into_keys()", &koo)?, &keys)?;
+                s.finish().map_err(|m| format!("after into_keys() dropped after {j} items: {m}"))?;
+            }
+            {
+                let mut s = rebuild();
+                let m = std::mem::take(&mut s.map);
+                subset("into_values()", drive(m.into_values(), n, j, Tail::DropNow, "into_values()", &voo)?, &vals)?;
+                s.finish().map_err(|m| format!("after into_values() dropped after {j} items: {m}"))?;
+            }
+            count += 3;
         }
     }
     // default-constructed iterators are empty
@@ -786,6 +823,145 @@ pub fn probe_try_reserve<K: KeyT, V: ValT>(rebuild: &dyn Fn() -> MapSut<K, V>, s
             count += 1;
         }
     }
+    stats.probe(count);
+    Ok(())
+}
+
+// ---------------------------------------------------------------------------
+// C15 get_many_mut / get_many_key_value_mut
+// ---------------------------------------------------------------------------
+
+fn many_map<K: KeyT, V: ValT, const N: usize>(s: &mut MapSut<K, V>, ids: [u8; N], kv: bool) -> Result<(), String> {
+    let krefs: [KeyRef; N] = std::array::from_fn(|i| KeyRef(ids[i]));
+    let mut expect_panic = false;
+    for i in 0..N {
+        for j in 0..i {
+            if ids[i] == ids[j] && s.mpos(ids[i]).is_some() {
+                expect_panic = true;
+            }
+        }
+    }
+    let before = sorted(s.model.clone());
+    let map = &mut s.map;
+    let r = env::catch(|| {
+        let ks: [&KeyRef; N] = std::array::from_fn(|i| &krefs[i]);
+        let mut out: [Option<(usize, u8, u32, u32)>; N] = [None; N];
+        if kv {
+            let res = map.get_many_key_value_mut(ks);
+            for (i, r) in res.into_iter().enumerate() {
+                if let Some((k, v)) = r {
+                    let addr = v as *mut V as usize;
+                    let old = v.tok();
+                    v.set_tok(0x7000_0000 + i as u32);
+                    out[i] = Some((addr, k.id(), k.tok(), old));
+                }
+            }
+        } else {
+            let res = map.get_many_mut(ks);
+            for (i, r) in res.into_iter().enumerate() {
+                if let Some(v) = r {
+                    let addr = v as *mut V as usize;
+                    let old = v.tok();
+                    v.set_tok(0x7000_0000 + i as u32);
+                    out[i] = Some((addr, ids[i], 0, old));
+                }
+            }
+        }
+        out
+    });
+    let name = if kv { "get_many_key_value_mut" } else { "get_many_mut" };
+    match r {
+        Err(m) => {
+            if !expect_panic {
+                return Err(format!("{name}({:?}) panicked ({m}) although no two requests resolve to the same entry", ids));
+            }
+            let got = sorted(s.map.iter().map(|(k, v)| (k.id(), k.tok(), v.tok())).collect());
+            if got != before {
+                return Err(format!("{name}({:?}) panicked and changed the map", ids));
+            }
+        }
+        Ok(out) => {
+            if expect_panic {
+                return Err(format!("{name}({:?}) returned although two requests resolve to the same entry (aliasing &mut)", ids));
+            }
+            for i in 0..N {
+                for j in 0..i {
+                    if let (Some(a), Some(b)) = (out[i], out[j]) {
+                        if a.0 == b.0 && std::mem::size_of::<V>() != 0 {
+                            return Err(format!("{name}({:?}) returned two references to the same entry (requests {j} and {i})", ids));
+                        }
+                    }
+                }
+            }
+            for i in 0..N {
+                let p = s.mpos(ids[i]);
+                match (out[i], p) {
+                    (Some((_, id, ktok, old)), Some(p)) => {
+                        let m = s.model[p];
+                        if id != ids[i] || old != m.2 || (kv && ktok != m.1) {
+                            return Err(format!("{name}({:?}): result {i} is ({id}, {ktok}, {old}), reference entry {:?}", ids, m));
+                        }
+                        s.model[p].2 = 0x7000_0000 + i as u32;
+                    }
+                    (None, None) => {}
+                    (Some(_), None) => return Err(format!("{name}({:?}): result {i} is Some but key {} is absent", ids, ids[i])),
+                    (None, Some(_)) => return Err(format!("{name}({:?}): result {i} is None but key {} is present", ids, ids[i])),
+                }
+            }
+            let got = sorted(s.map.iter().map(|(k, v)| (k.id(), k.tok(), v.tok())).collect());
+            if got != sorted(s.model.clone()) {
+                return Err(format!("{name}({:?}): after writing sentinels the map holds {:?}, reference {:?}", ids, got, sorted(s.model.clone())));
+            }
+            // restore unique tokens
+            for e in s.model.iter_mut() {
+                if e.2 >= 0x7000_0000 && e.2 < 0x7000_0010 {
+                    let t = s.next_tok;
+                    s.next_tok += 1;
+                    e.2 = t;
+                    s.map.get_mut(&KeyRef(e.0)).ok_or("restore failed")?.set_tok(t);
+                }
+            }
+        }
+    }
+    Ok(())
+}
+
+pub fn probe_many_mut<K: KeyT, V: ValT>(s: &mut MapSut<K, V>, universe: u8, stats: &Stats) -> Result<(), String> {
+    let mut ids: Vec<u8> = Vec::new();
+    let mut absent_done = [false; 256];
+    for id in 0..universe {
+        if s.mpos(id).is_some() {
+            ids.push(id);
+        } else {
+            let c = s.class_of[id as usize] as usize;
+            if !absent_done[c] {
+                absent_done[c] = true;
+                ids.push(id);
+            }
+        }
+    }
+    let mut count = 0u64;
+    for kv in [false, true] {
+        many_map::<K, V, 0>(s, [], kv)?;
+        for &a in &ids {
+            many_map::<K, V, 1>(s, [a], kv)?;
+            for &b in &ids {
+                many_map::<K, V, 2>(s, [a, b], kv)?;
+                count += 1;
+                for &c in &ids {
+                    many_map::<K, V, 3>(s, [a, b, c], kv)?;
+                    count += 1;
+                    if ids.len() <= 6 {
+                        for &d in &ids {
+                            many_map::<K, V, 4>(s, [a, b, c, d], kv)?;
+                            count += 1;
+                        }
+                    }
+                }
+            }
+        }
+    }
+    s.check_all(universe, true, true).map_err(|m| format!("after get_many_mut probes: {m}"))?;
     stats.probe(count);
     Ok(())
 }
